@@ -1,6 +1,7 @@
 package main
 
 import (
+	"go/token"
 	"fmt"
 	"sort"
 	"strings"
@@ -254,6 +255,7 @@ func runC05(c *Ctx) {
 		}
 	}
 	c.Check(okPtr, "address-payload-writer", ssaFuncKey(by)+":pointer", by.Pos(), "pointer payload written through encode()", "pointer staking payload is not written through AddressPayloadPointer.encode")
+	c.checkPointerVarint()
 }
 
 // hrpValues evaluates a string value built from constants and phis/concats restricted to reachable predecessor blocks.
@@ -317,4 +319,94 @@ func atomBySuffix(fn *ssa.Function, suffix string) string {
 		}
 	}
 	return "p0" + suffix
+}
+
+// checkPointerVarint: the variable-length unsigned encoder used for pointer addresses must be minimal
+// (no leading 0x80 continuation groups). Proven for the recognised inductive form, refuted for the known-wrong
+// group-count formula, otherwise undecided.
+func (c *Ctx) checkPointerVarint() {
+	enc := c.SSAFunc("ledger/common", "AddressPayloadPointer.encode")
+	if enc == nil {
+		c.Undecided("AddressPayloadPointer.encode not found")
+		return
+	}
+	key := ssaFuncKey(enc) + ":varint"
+	fns := withAnon(enc)
+	// refutation: group count = bits.Len(x)/7 + 1
+	for _, f := range fns {
+		for _, in := range fnInstrs(f) {
+			bo, ok := in.(*ssa.BinOp)
+			if !ok || bo.Op != token.ADD || desc(bo.Y) != "1" {
+				continue
+			}
+			if q, ok := bo.X.(*ssa.BinOp); ok && q.Op == token.QUO && desc(q.Y) == "7" && strings.HasPrefix(trace(q.X), "Len") {
+				c.Bad("pointer-varint-minimal", key, bo.Pos(), "the number of 7-bit groups is computed as bits.Len(v)/7 + 1: when the bit length is a multiple of 7 (64..127, 8192..16383, …) one group too many is emitted, a leading 0x80 byte, so the address bytes differ from the minimal encoding the address was decoded from")
+				return
+			}
+		}
+	}
+	// proof: emit low group without continuation bit, then loop while the value shifted by 7 is non-zero, emitting groups with 0x80
+	for _, f := range fns {
+		var loopIf *ssa.If
+		var shifted *ssa.Phi
+		for _, b := range f.Blocks {
+			iff, ok := b.Instrs[len(b.Instrs)-1].(*ssa.If)
+			if !ok {
+				continue
+			}
+			bo, ok := iff.Cond.(*ssa.BinOp)
+			if !ok || !(bo.Op == token.GTR || bo.Op == token.NEQ) || desc(bo.Y) != "0" {
+				continue
+			}
+			ph, ok := bo.X.(*ssa.Phi)
+			if !ok {
+				continue
+			}
+			allShift := len(ph.Edges) >= 2
+			for _, e := range ph.Edges {
+				s, ok := e.(*ssa.BinOp)
+				if !ok || !((s.Op == token.QUO && desc(s.Y) == "128") || (s.Op == token.SHR && desc(s.Y) == "7")) {
+					allShift = false
+				}
+			}
+			if allShift && inLoop(b) {
+				loopIf, shifted = iff, ph
+			}
+		}
+		if loopIf == nil {
+			continue
+		}
+		// stores: in-loop stores carry |128, exactly one store outside the loop without it (the last byte)
+		inLoopCont, outNoCont := 0, 0
+		for _, in := range fnInstrs(f) {
+			st, ok := in.(*ssa.Store)
+			if !ok {
+				continue
+			}
+			if _, isIdx := st.Addr.(*ssa.IndexAddr); !isIdx {
+				continue
+			}
+			t := trace(st.Val)
+			hasCont := strings.Contains(t, "| 128")
+			has7 := strings.Contains(t, "& 127")
+			if !has7 {
+				continue
+			}
+			if inLoop(st.Block()) {
+				if hasCont {
+					inLoopCont++
+				} else {
+					inLoopCont = -100
+				}
+			} else if !hasCont {
+				outNoCont++
+			}
+		}
+		_ = shifted
+		if inLoopCont >= 1 && outNoCont == 1 {
+			c.Ok("pointer-varint-minimal", key, loopIf.Pos(), "low group without continuation bit, then one 0x80-group per remaining non-zero 7-bit shift: the encoding has no leading zero group")
+			return
+		}
+	}
+	c.Undecided("%s: the varint encoder is not in a form this checker can prove minimal or refute", key)
 }
